@@ -14,6 +14,25 @@
 #include "types.h"
 #include "config.h"
 #include "vf.h"
+#include <sys/uio.h>
+
+/* text of a stored value: short values convert to 's'; values of 255 bytes and more live in a
+ * buffer-backed metatype that offers its content as character vector (terminator included) */
+static char longtext[70000];
+static int text_fallback(int rc, MPT_INTERFACE(config) *cfg, const MPT_STRUCT(path) *p, const char *dotpath, const char **got)
+{
+	struct iovec vec = { 0, 0 };
+	if (rc != MPT_ERROR(BadType)) return rc;
+	if (p) rc = mpt_config_getp(cfg, p, MPT_type_toVector('c'), &vec);
+	else rc = mpt_config_get(0, dotpath, MPT_type_toVector('c'), &vec);
+	if (rc < 0) return rc;
+	if (vec.iov_len >= sizeof(longtext)) return MPT_ERROR(MissingBuffer);
+	if (vec.iov_len) memcpy(longtext, vec.iov_base, vec.iov_len);
+	longtext[vec.iov_len] = 0;
+	*got = longtext;
+	vf_count("monitor:long-value-via-vector", 1);
+	return rc;
+}
 
 const char *vf_name = "c10_global";
 
@@ -162,6 +181,7 @@ static void audit_one(const char *after, int i, MPT_INTERFACE(config) *cfg, int 
 	/* value */
 	vf_at("mpt_config_getp");
 	rc = mpt_config_getp(cfg, &p, 's', &got);
+	rc = text_fallback(rc, cfg, &p, 0, &got);
 	vf_count("mpt_config_getp", 1);
 	if (x->hasval) {
 		VF_CHECK(rc >= 0, "model:query:value-missing", "after %s: %s query of '%s' returned %d, model holds a value of %zu bytes", after, via, show(x), rc, x->vlen);
@@ -208,6 +228,7 @@ static void audit_get(const char *after)
 		render(pbuf, x, 0, x->n, '.');
 		vf_at("mpt_config_get");
 		int rc = mpt_config_get(0, pbuf, 's', &got);
+		rc = text_fallback(rc, 0, 0, pbuf, &got);
 		vf_count("mpt_config_get", 1);
 		if (x->hasval) {
 			VF_CHECK(rc >= 0 && got && strlen(got) == x->vlen && !memcmp(got, x->val, x->vlen), "model:config_get:value",
